@@ -757,6 +757,13 @@ func blame(e *penv, side byte, h []pop, k int) string {
 		if first == "" {
 			first = short(full.steps[j].Class)
 		}
+		again := false
+		for _, o := range h[j+1 : k+1] {
+			again = again || o == h[j]
+		}
+		if again {
+			continue // the same packet is delivered again later: removing its first delivery would change that packet
+		}
 		hh := append(append([]pop(nil), h[:j]...), h[j+1:k+1]...)
 		r, err := runHistory(e, side, hh, nil, false)
 		if err == nil && r.violStep < 0 {
